@@ -17,6 +17,17 @@ from fractions import Fraction
 import common
 from common import frac, rstr, rparse, close
 import stoch_gen
+
+
+def _fl(q):
+    """float of a rational that never raises (overflow -> inf)"""
+    try:
+        return float(q)
+    except OverflowError:
+        return float("inf") if q > 0 else float("-inf")
+
+
+_f = common.fstr
 import engine_io
 
 ID = "C07"
@@ -120,7 +131,7 @@ def check_gillespie(ctx, case, res, rates, stats):
         a0 = sum(c[0] for c in ch)
         a0s.append(a0)
         stats["steps"] += 1
-        step = {"step": k, "x": [float(v) for v in x], "x_next": [float(v) for v in y], "t": ts[k], "t_next": ts[k + 1]}
+        step = {"step": k, "x": [_f(v) for v in x], "x_next": [_f(v) for v in y], "t": ts[k], "t_next": ts[k + 1]}
         cse = dict(small(case), **step)
         if any(v < 0 or v.denominator != 1 for v in y):
             ctx.violation("gillespie-state-not-nonneg-int", "state after a Gillespie step is not a non-negative integer state", cse)
@@ -135,7 +146,7 @@ def check_gillespie(ctx, case, res, rates, stats):
         if not legal:
             ctx.violation("gillespie-illegal-step", "consecutive samples do not differ by one channel that is possible in the state before "
                           "(positive constant, enough reactants / non-zero interface diffusivity)", cse,
-                          impl={"diff": {str(p): float(y[p] - x[p]) for p in range(len(x)) if y[p] != x[p]}},
+                          impl={"diff": {str(p): _f(y[p] - x[p]) for p in range(len(x)) if y[p] != x[p]}},
                           expected={"possible_events": [list(map(str, c[2])) for c in ch][:12]})
             return None
         if y != x:
@@ -154,8 +165,8 @@ def check_gillespie(ctx, case, res, rates, stats):
         if hit is not None and margin > Fraction(1, 10 ** 9) * a0:
             if apply_effect(x, hit[1], n) != y:
                 ctx.violation("gillespie-selection", "the applied event is not the channel whose cumulative propensity interval contains u*a0",
-                              cse, impl={"diff": {str(p): float(y[p] - x[p]) for p in range(len(x)) if y[p] != x[p]}},
-                              expected={"u": float(u1), "a0": float(a0), "channel": list(map(str, hit[2]))})
+                              cse, impl={"diff": {str(p): _f(y[p] - x[p]) for p in range(len(x)) if y[p] != x[p]}},
+                              expected={"u": _f(u1), "a0": _f(a0), "channel": list(map(str, hit[2]))})
                 return None
         else:
             ctx.count("selection_ambiguous_or_edge")
@@ -166,10 +177,10 @@ def check_gillespie(ctx, case, res, rates, stats):
         u2 = draws[2 * k + 1][3]
         L = math.log(1 / u2) if u2 > 0 else float("inf")
         dt = ts[k + 1] - ts[k]
-        lhs = dt * float(a0)
-        if not (abs(lhs - L) <= TOL * max(L, 1e-300) + float(a0) * 8e-16 * abs(ts[k + 1])):
+        lhs = dt * _fl(a0)
+        if not (abs(lhs - L) <= TOL * max(L, 1e-300) + _fl(a0) * 8e-16 * abs(ts[k + 1])):
             ctx.violation("gillespie-waiting-time", "waiting time x total propensity of the master equation differs from ln(1/u)", cse,
-                          impl={"dt": dt, "dt*a0": lhs}, expected={"ln(1/u)": L, "a0": float(a0)})
+                          impl={"dt": dt, "dt*a0": lhs}, expected={"ln(1/u)": L, "a0": _f(a0)})
             return None
     return a0s
 
@@ -185,7 +196,7 @@ def check_tauleap(ctx, case, res, rates, stats):
         ch = rates.channels(x)
         stats["steps"] += 1
         mine = draws[pos:pos + len(ch)]
-        cse = dict(small(case), step=k, x=[float(v) for v in x], x_next=[float(v) for v in y])
+        cse = dict(small(case), step=k, x=[_f(v) for v in x], x_next=[_f(v) for v in y])
         if len(mine) < len(ch) or any(d[0] != "pois" for d in mine):
             ctx.violation("tauleap-draw-count", "a tau-leap step did not draw one Poisson count per channel with positive propensity", cse,
                           impl={"draws": len(draws) - pos}, expected={"channels": len(ch)})
@@ -193,7 +204,7 @@ def check_tauleap(ctx, case, res, rates, stats):
         for d, c in zip(mine, ch):
             if not close(d[1], c[0] * dt, rel=TOL):
                 ctx.violation("tauleap-mean", "a Poisson mean differs from propensity x time step", cse,
-                              impl={"mean": d[1]}, expected={"propensity*dt": float(c[0] * dt), "channel": list(map(str, c[2]))})
+                              impl={"mean": d[1]}, expected={"propensity*dt": _f(c[0] * dt), "channel": list(map(str, c[2]))})
                 return False
         z = list(x)
         for d, c in zip(mine, ch):
@@ -203,7 +214,7 @@ def check_tauleap(ctx, case, res, rates, stats):
                 ctx.count("tau_event_" + c[2][0], cnt)
         if z != y:
             ctx.violation("tauleap-apply", "state after a tau-leap step is not the state before plus count x effect of every channel", cse,
-                          impl={"x_next": [float(v) for v in y]}, expected={"x_next": [float(v) for v in z]})
+                          impl={"x_next": [_f(v) for v in y]}, expected={"x_next": [_f(v) for v in z]})
             return False
         if y != x:
             stats["changed"] += 1
@@ -305,7 +316,7 @@ def run(ctx):
                     ctx.disagree("gillespie_step", cse, "engine stepped", "model: a0 = 0")
                     continue
                 if rparse(o["a0"]) != extra:
-                    ctx.disagree("gillespie_step", cse, {"oracle_a0": float(extra)}, {"a0": o["a0"]}, note="model a0 differs from the oracle's CME sum")
+                    ctx.disagree("gillespie_step", cse, {"oracle_a0": _f(extra)}, {"a0": o["a0"]}, note="model a0 differs from the oracle's CME sum")
                     continue
                 if rparse(o["margin"]) < Fraction(1, 10 ** 9):
                     ctx.count("ambiguous_selection")
@@ -315,14 +326,14 @@ def run(ctx):
                                  note="selected event differs")
                     continue
                 dt = res["t"][k + 1] - res["t"][k]
-                if not (abs(dt - float(rparse(o["dt"]))) <= TOL * dt + 8e-16 * abs(res["t"][k + 1])):
+                if not (abs(dt - _fl(rparse(o["dt"]))) <= TOL * dt + 8e-16 * abs(res["t"][k + 1])):
                     ctx.disagree("gillespie_step", cse, {"dt": dt}, {"dt": o["dt"]}, note="waiting time differs")
                 ctx.count("model_steps_gillespie")
             else:
                 means = [rparse(m) for m in o["means"]]
                 posm = [m for m in means if m > 0]
                 if len(posm) != len(extra) or not all(close(a, m, rel=TOL) for a, m in zip(extra, posm)):
-                    ctx.disagree("tauleap_step", cse, {"means": extra}, {"means": [float(m) for m in posm]}, note="Poisson means differ")
+                    ctx.disagree("tauleap_step", cse, {"means": extra}, {"means": [_f(m) for m in posm]}, note="Poisson means differ")
                     continue
                 if o["x"] is None or [rparse(v) for v in o["x"]] != nxt:
                     ctx.disagree("tauleap_step", cse, {"x_next": res["x"][k + 1]}, {"x_next": o["x"]}, note="next state differs")
